@@ -615,6 +615,12 @@ def run(ctx):
     obs_hist = {}
     for r in recs:
         obs_hist[r['obs']] = obs_hist.get(r['obs'], 0) + 1
+    vclasses = {}
+    for sig, _what, _path in ctx.violations:
+        vclasses[sig.get('class')] = vclasses.get(sig.get('class'), 0) + 1
+    if vclasses:
+        print('C19 violation classes: %s' % sorted(vclasses.items()))
+    ctx.extra['violation_classes'] = vclasses
     ctx.extra['allowed_sets_reached'] = sorted(classes)
     ctx.extra['random_observed_classes'] = obs_hist
     ctx.extra['bounds'] = {'tier': ctx.tier, 'cases_per_part': counts, 'random_records': len(recs),
